@@ -20,12 +20,21 @@ RULE = ('real compute_features_3d / BycycleGroup.fit for every shape (n0, n1) in
         'cases first fit the SAME BycycleGroup on 1-2 decoy arrays of another shape (more / fewer rows, another n1, a 2-D '
         'array, any axis) with other signals, and after the judged fit len(bg), bg.models, bg[i][j], iteration and '
         'df_features must have exactly the judged array\'s first two dimensions, every model holding the table (by value) '
-        'and the signal of its own position; the history is evaluated by the model of the object (second Coq stream); '
+        'and the signal of its own position; in about two thirds of these histories the user RE-ASSIGNS settings '
+        'attributes of the object between the fits (sometimes before the first one): center_extrema, burst_method together '
+        'with thresholds, thresholds = a new dict, burst_kwargs, find_extrema_kwargs, return_samples - all or a subset, '
+        'values from another option set of the pool; the candidates then hold the tables of every signal / slice under '
+        'EVERY option set the object held during the history, and every entry must be the analysis under the settings in '
+        'force when the judged fit was called; the history (fits and assignments) is evaluated by the model of the object '
+        '(second Coq stream); '
         'non-trivial = n0*n1 >= 2')
 EXHAUSTIVE = {'quick': False, 'thorough': True}
 ASSUMPTIONS = ['the statement about BycycleGroup.fit is applied to every call of fit, also on an object that was fitted before on '
                'arrays of another shape (the property does not restrict it to fresh objects); position-wise access is read as '
                'bg.models, bg[i] (bg[i][j]), len(bg) and iteration, compared by value',
+               'the options of a BycycleGroup fit are the values its settings attributes hold when fit is called (the '
+               'constructor\'s, or what the user assigned to the attribute since); every assignment block leaves a valid '
+               'combination (a change of burst_method comes with matching thresholds)',
                'reference tables for axis 0 / 1 are produced by compute_features_2d(axis=None) itself (placement, not content, is checked here)']
 TRUST = ['Pool.imap is modelled as a reorder buffer keyed by submission index']
 AXV = {0: 0, 1: 1, 2: (0, 1)}
@@ -50,14 +59,17 @@ def _one(rng, n0, n1, ax, mode, via):
     rs_key = [(rng.random() < 0.5 if rng.random() < 0.25 else None) for _ in range(n_entries)]
     if via == 'group':
         rs_key = [None] * n_entries
-    history = gl.gen_decoys(rng, (n0, n1)) if via == 'group' and rng.random() < 0.6 else []
+    shared = rng.randrange(len(gl.KW_POOL))
+    # the flag is forwarded for axis=(0,1) only; the flattened-epoch analysis always keeps the sample columns
+    return_samples = (rng.random() >= 0.4) if ax == 2 else True
+    history = (gl.gen_history(rng, (n0, n1), mode, shared, return_samples)
+               if via == 'group' and mode != 'list' and rng.random() < 0.6 else [])
     return {'kind': 'g3d/ax%d/%s' % (ax, mode), 'n0': n0, 'n1': n1, 'ax': ax, 'kwmode': mode, 'kw': kw,
             'history': history, 'kseed': rng.randrange(10 ** 6),
-            'shared': rng.randrange(len(gl.KW_POOL)), 'rs_key': rs_key,
+            'shared': shared, 'rs_key': rs_key,
             'sig_ids': rng.sample(range(40), n0 * n1), 'n_jobs': rng.choice([1, 2, 3, 4]),
             'schedule': rng.choice(['reverse', 'first_slow', 'zigzag', 'none']), 'via': via,
-            # the flag is forwarded for axis=(0,1) only; the flattened-epoch analysis always keeps the sample columns
-            'return_samples': (rng.random() >= 0.4) if ax == 2 else True, 'layout': rng.choice(['C', 'C', 'F', 'view'])}
+            'return_samples': return_samples, 'layout': rng.choice(['C', 'C', 'F', 'view'])}
 
 
 def cases(rng, tier):
@@ -93,6 +105,9 @@ def _aid(c, pos):
     mode = _mode(c)
     if mode == 'list' and c['via'] != 'group':
         return c['kw'][pos]
+    vid = gl.current_vid(c.get('history')) if c['via'] == 'group' else None
+    if vid is not None:
+        return vid                      # the option set assigned last
     return gl.NONE_ID if mode == 'none' else gl.SHARED_ID
 
 
@@ -142,7 +157,8 @@ def run_impl(c):
                     bg = BycycleGroup(center_extrema=kw['center_extrema'], burst_method=kw.get('burst_method', 'cycles'),
                                       thresholds=gl.shuffled(krng, kw['threshold_kwargs']),
                                       find_extrema_kwargs=kw.get('find_extrema_kwargs'), return_samples=rs)
-                gl.run_decoys(bg, c.get('history'))           # earlier fits of the SAME object on arrays of another shape
+                # earlier fits of the SAME object on arrays of another shape, re-assignments of its settings attributes
+                gl.run_history(bg, c.get('history'), krng)
             orig = gl.install_delays(tasks, c['schedule'])
             if c['via'] == 'group':
                 bg.fit(sigs, gl.FS, gl.FR, axis=AXV[ax], n_jobs=c['n_jobs'])
@@ -157,22 +173,32 @@ def run_impl(c):
     if err is not None:
         out.update(err)
         return out
-    if mode == 'list':
-        kws = [(a, a) for a in sorted(set(c['kw']))]
+    # option sets whose tables are candidates: (id, keyword arguments or None, return_samples)
+    if c['via'] == 'group':
+        # every option set the object held during its history (the constructor's first)
+        kws = []
+        for vid, st in gl.versions(mode, c['shared'], rs, c.get('history')):
+            if vid is None and mode == 'none':
+                kws.append((gl.NONE_ID, None, rs))
+            elif vid is None:
+                kw = gl.option_set(c['shared'])
+                kw.setdefault('find_extrema_kwargs', None)
+                kws.append((gl.SHARED_ID, kw, rs))
+            else:
+                kws.append((vid, gl.settings_kwargs(st), st['return_samples']))
+    elif mode == 'list':
+        kws = [(a, gl.option_set(a), rs) for a in sorted(set(c['kw']))]
     elif mode == 'dict':
-        kws = [(gl.SHARED_ID, c['shared'])]
+        kws = [(gl.SHARED_ID, gl.option_set(c['shared']), rs)]
     else:
-        kws = [(gl.NONE_ID, None)]
+        kws = [(gl.NONE_ID, None, rs)]
     cands = {}
     ref_errors = []
-    for aid, a in kws:
-        kw = gl.option_set(a) if a is not None else None
-        if c['via'] == 'group' and kw is not None and 'find_extrema_kwargs' not in kw:
-            kw['find_extrema_kwargs'] = None
+    for aid, kw, rs_v in kws:
         if ax == 2:
             for i in range(n0):
                 for j in range(n1):
-                    cands[(aid, i * n1 + j, 0)] = compute_features(sigs[i, j], gl.FS, gl.FR, return_samples=rs, **(kw or {}))
+                    cands[(aid, i * n1 + j, 0)] = compute_features(sigs[i, j], gl.FS, gl.FR, return_samples=rs_v, **(kw or {}))
         else:
             slices = [(_sid([i * n1 + j for j in range(n1)]), sigs[i]) for i in range(n0)] + \
                      [(_sid([i * n1 + j for i in range(n0)]), sigs[:, j]) for j in range(n1)]
@@ -235,12 +261,14 @@ def oracle(c, o):
                     if [aid, first_id] == want[i][j][:2]:
                         return ('entry [%d][%d] is a table, but the flattened-epoch analysis of that slice alone (compute_features_2d, '
                                 'axis=None, same options) raised %s (%s)' % (i, j, kind, msg))
-                return 'entry [%d][%d] holds (options, slice/signal, epoch) = %s, expected %s' % (i, j, o['placement'][i][j], want[i][j])
+                return 'entry [%d][%d] holds (options, slice/signal, epoch) = %s, expected %s%s' % (
+                    i, j, o['placement'][i][j], want[i][j],
+                    ' [BycycleGroup.fit%s; option ids: %d / %d = the constructor\'s, 1001.. = after the n-th assignment block]'
+                    % (gl.history_note(c.get('history')), gl.SHARED_ID, gl.NONE_ID) if gl.n_reassign(c.get('history')) else '')
     if 'object' in o:
         p = gl.object_problem(o['object'], (c['n0'], c['n1']), want)
         if p:
-            return 'BycycleGroup.fit%s: %s' % (' after %d earlier fit(s) of the same object on arrays of another shape'
-                                                % len(c['history']) if c.get('history') else '', p)
+            return 'BycycleGroup.fit%s: %s' % (gl.history_note(c.get('history')), p)
     return None
 
 
@@ -250,7 +278,8 @@ def nontrivial(c, o):
 
 def kind_of(c, o):
     return 'g3d/ax%d/%s%s/%dx%d%s' % (c['ax'], _mode(c), '-object' if c['via'] == 'group' else '', c['n0'], c['n1'],
-                                      '/refit%d' % len(c['history']) if c.get('history') else '')
+                                      '/refit%d%s' % (gl.n_decoys(c['history']), '-reassign' if gl.n_reassign(c['history']) else '')
+                                      if c.get('history') else '')
 
 
 def extra_evidence():
@@ -269,6 +298,7 @@ def coq_case(c, o):
     if stream_of(c) == 'object':
         if 'object' not in o:
             return None
-        hist = [gl.decoy_term(d) for d in c.get('history') or []] + [inp]
-        return gl.coqio.lst(hist), '(%s, %s)' % (gl.coq_triples(o['placement']), gl.coq_models(o['object']['models']))
+        k0 = gl.NONE_ID if mode == 'none' else gl.SHARED_ID
+        return (gl.history_term(k0, c.get('history'), inp),
+                '(%s, %s)' % (gl.coq_triples(o['placement']), gl.coq_models(o['object']['models'])))
     return inp, gl.coq_triples(o['placement'])
